@@ -63,7 +63,7 @@ type liveSeries struct {
 }
 
 func (c09) Run(e *Env) {
-	e.ProbeDecl("expired", "reported-idle", "boundary-exact", "revived-after-expiry", "negative-expiry-single-flush", "zero-expiry-long-idle", "data-at-flush-instant", "histogram-timer-series", "small-value-pool", "huge-expiry-long-idle")
+	e.ProbeDecl("expired", "reported-idle", "boundary-exact", "revived-after-expiry", "negative-expiry-single-flush", "zero-expiry-long-idle", "data-at-flush-instant", "histogram-timer-series", "small-value-pool", "huge-expiry-long-idle", "several-values-in-one-datagram")
 	// incl. intervals that will never elapse in a run: a year, and the largest a configuration can express
 	expChoices := []time.Duration{-time.Second, 0, 300 * time.Millisecond, 400 * time.Millisecond, 600 * time.Millisecond, time.Second, 1500 * time.Millisecond, 5 * time.Second, -time.Nanosecond, 8760 * time.Hour, 2562047 * time.Hour, math.MaxInt64}
 	cfg := W1Config{
@@ -204,7 +204,20 @@ func (c09) Run(e *Env) {
 			if w.Sock.Waiting() == 0 {
 				e.Failf("C09/no-reader", "no reader parked at quiescence")
 			}
-			w.Send(0, []byte(d.Line()))
+			// a client may put several values of one series into one datagram
+			extra := []DP{}
+			if (s.Type == "ms" || s.Type == "h" || s.Type == "c") && e.Chance(1, 4) {
+				for i, n := 0, e.Range(1, 3); i < n; i++ {
+					sent++
+					extra = append(extra, GenDP(e, s, ClientIP(0), sent))
+				}
+				e.Probe("several-values-in-one-datagram")
+			}
+			payload := d.Line()
+			for _, x := range extra {
+				payload += "\n" + x.Line()
+			}
+			w.Send(0, []byte(payload))
 			now := time.Now()
 			if now.Sub(t0)%cfg.Flush == 0 && now != t0 {
 				e.Probe("data-at-flush-instant")
@@ -220,12 +233,16 @@ func (c09) Run(e *Env) {
 			}
 			d.TS = now.UnixNano()
 			ls.acc.Add2(d)
+			for _, x := range extra {
+				x.TS = now.UnixNano()
+				ls.acc.Add2(x)
+			}
 			ls.lastTS = now
 			ls.hasData = true
 			if d.Kind() == "gauge" {
 				ls.gauge = d.Value()
 			}
-			e.Event("send +%v %s", now.Sub(t0), d.Line())
+			e.Event("send +%v %q", now.Sub(t0), payload)
 			// next datapoint gets its own instant
 			time.Sleep(time.Millisecond * time.Duration(1+e.Draw(3)) * 50)
 		case 1:
